@@ -61,6 +61,7 @@ class _Agg:
         self.ctx, self.fi = ctx, fi
         self.items = {}
         self.unfollowed = set()
+        self.floors = []
 
     def saw(self, sx, paths):
         """remember the helpers with effects that the executor could not look into on these paths"""
@@ -75,7 +76,20 @@ class _Agg:
             it[3] = detail
         return ok
 
+    def floor(self, what, n, floor):
+        """an instance-count floor checked after the obligations have been recorded: a refuted obligation is reported even
+        when the fault also empties a site family"""
+        self.floors.append((what, n, floor))
+
     def flush(self):
+        try:
+            self._flush()
+        finally:
+            fl, self.floors = self.floors, []
+        for what, n, floor in fl:
+            self.ctx.floor(what, n, floor)
+
+    def _flush(self):
         if self.unfollowed and any(not it[1] for it in self.items.values()):
             # a failing obligation on paths with an unexplored helper is not a finding: refuse
             raise AnalysisError("%s calls %s, whose effects the path executor does not follow (not a function of the confirmed tree, not expanded by the canonicalisation)" % (self.fi.short, ", ".join(sorted(q[len("aiocoap."):] if q.startswith("aiocoap.") else q for q in self.unfollowed))))
@@ -343,7 +357,7 @@ def b(ctx):
             ip = params(prog.func(BW + "ContinueException.__init__"))
             arg = _arg(v, 0, ip[0]) if ip else None
         ag.add("Continue is constructed from the request's Block1 option", arg is not None and same(arg, own), ev.node, detail="argument %s" % (txt(arg) if arg is not None else None))
-    ctx.floor("paths raising ContinueException", n, 1)
+    ag.floor("paths raising ContinueException", n, 1)
     ag.flush()
     init = prog.func(BW + "ContinueException.__init__")
     ip = params(init)[0]
@@ -431,6 +445,8 @@ def c(ctx):
         if isinstance(c3, ast.Call) and chain(c3.func) == m + ".get_cache_key":
             gp = params(prog.func("message.Message.get_cache_key"))
             l = _arg(c3, 0, gp[0]) if gp else None
+            if isinstance(l, ast.Name) and l.id in p.objs and sum(1 for n in ast.walk(fi.node) if isinstance(n, ast.Name) and n.id == l.id) == 2:
+                l = p.objs[l.id]  # a local list / set display used for nothing but this argument
             elts = _literal_elts(prog, fi, l) if l is not None else None
             if elts is not None and all(chain(e) for e in elts):
                 ign = {chain(e).split(".")[-1] for e in elts}
@@ -448,6 +464,9 @@ def c(ctx):
     gk = prog.func("message.Message.get_cache_key")
     ig = params(gk)[0]
     sg = SymExec(prog, gk)
+    # option numbers: `n.is_safetoforward()` is `not n.is_unsafe()`, `n.is_cachekey()` is `not n.is_nocachekey()` (the
+    # side-effect-free one-line predicates of numbers.optionnumbers.OptionNumber are read as their bodies)
+    sg.declare_type(lambda e: isinstance(e, ast.Attribute) and e.attr == "number", prog.cls("numbers.optionnumbers.OptionNumber"), [])
     gpaths = sg.paths()
     ag = _Agg(ctx, gk)
     ag.saw(sg, gpaths)
@@ -462,6 +481,17 @@ def c(ctx):
         oke = isinstance(elt, ast.Tuple) and len(elt.elts) == 2 and same(elt.elts[0], ast.Attribute(value=o, attr="number", ctx=ast.Load())) and same(elt.elts[1], ast.Attribute(value=o, attr="value", ctx=ast.Load()))
         ag.add("every other cache-key option enters the key with number and value", oke, node, construct="get_cache_key %s: element" % what, detail=txt(elt))
 
+    def skipped(o, facts_false, node, what):
+        # `facts_false`: the facts under which an option does NOT enter the key -- only ignored options and the
+        # safe-to-forward NoCacheKey ones may be left out (anything else would make different requests share a key)
+        num = ast.Attribute(value=o, attr="number", ctx=ast.Load())
+        IGN = ast.Compare(left=num, ops=[ast.In()], comparators=[ast.Name(id=ig, ctx=ast.Load())])
+        SAFE = ast.Call(func=ast.Attribute(value=num, attr="is_safetoforward", ctx=ast.Load()), args=[], keywords=[])
+        NCK = ast.Call(func=ast.Attribute(value=num, attr="is_nocachekey", ctx=ast.Load()), args=[], keywords=[])
+        allowed = ast.BoolOp(op=ast.Or(), values=[IGN, ast.BoolOp(op=ast.And(), values=[SAFE, NCK])])
+        bad = [f for f in facts_false if not sg.entails(f, allowed)]
+        ag.add("an option is left out of the key only if it is listed in ignore_options or is a safe-to-forward NoCacheKey option", not bad, node, construct="get_cache_key %s: completeness" % what, detail="left out %s" % (_where(sg, bad[0]) if bad else ""))
+
     def opt_iter(it):
         return isinstance(it, ast.Call) and chain(it.func) == "self.opt.option_list" and not it.args
 
@@ -469,6 +499,7 @@ def c(ctx):
         if p.end == "raise":
             continue
         fors = [ev for ev in p.evs("for") if opt_iter(ev.value) and isinstance(ev.target, ast.Name)]
+        sites_before = sites
         # loop + append / += [x] / extend([x]) into a local list
         def reaches_result(name):
             return p.ret is not None and name in names_in(p.ret)
@@ -487,6 +518,9 @@ def c(ctx):
             if fors and isinstance(v, ast.BinOp) and isinstance(v.op, ast.Add) and isinstance(v.right, (ast.List, ast.Tuple)) and any(isinstance(n, ast.Name) and n.id in p.objs for n in ast.walk(v.left)) and p.events.index(ev) > p.events.index(fors[-1]) and reaches_result(ev.target):
                 for x in v.right.elts:
                     member(fors[-1].target, x, [ev.facts], ev.node, "accumulation")
+        if fors and sites == sites_before:
+            # an iteration that added nothing to the key
+            skipped(fors[-1].target, [p.facts], fors[-1].node, "accumulation")
         # comprehension / generator over the option list, anywhere in what is returned (also behind a local list)
         if p.ret is None:
             continue
@@ -514,11 +548,13 @@ def c(ctx):
                 cond = ast.BoolOp(op=ast.And(), values=conds) if len(conds) > 1 else (conds[0] if conds else ast.Constant(value=True))
                 sg._defs_now = p.defs
                 sg._env_now = p.env
-                outs = [f for b_, f in sg.decide(cond, p.facts) if b_]
+                decided = list(sg.decide(cond, p.facts))
+                outs = [f for b_, f in decided if b_]
                 rnode = next(ev.node for ev in reversed(p.events) if ev.kind == "ret")
                 ctx.need(outs, "get_cache_key: the comprehension filter is never true")
                 member(tgt, elt, outs, rnode, "comprehension")
-    ctx.floor("cache key accumulation sites", sites, 1)
+                skipped(tgt, [f for b_, f in decided if not b_], rnode, "comprehension")
+    ag.floor("cache key accumulation sites", sites, 1)
     ag.flush()
 
 
@@ -564,7 +600,7 @@ def d(ctx):
             ev = p.raised()
             ag.add("the size check applies to blocks with the more-flag and compares the payload length with the block size", sx.entails(p.facts, MORE) and sx.refutes(p.facts, EQSZ), ev.node, detail=_where(sx, p.facts))
             ag.add("the size check precedes the append", not apps, ev.node)
-    ctx.floor("payload extension sites", n_app, 1)
+    ag.floor("payload extension sites", n_app, 1)
     ag.add("a non-final block whose payload length contradicts its block size is answered 4.00", n_bad >= 1, fi.node, construct="_append_request_block: size guard", detail="no path raises BadRequest")
     ag.flush()
 
@@ -621,8 +657,8 @@ def e(ctx):
                     ag.add("block number 0 (re)starts the assembly", bool(stores), rnode, construct="feed_and_take: block 0", detail=_where(sx, f2))
                 else:
                     ag.add("a later block reaches the handler only appended to the existing assembly", bool(apps) and not stores, rnode, construct="feed_and_take: continuation", detail=_where(sx, f2))
-    ctx.floor("assembly (re)start sites", n_store, 1)
-    ctx.floor("append sites", n_app, 1)
+    ag.floor("assembly (re)start sites", n_store, 1)
+    ag.floor("append sites", n_app, 1)
     ag.flush()
     # Resource._render_to_pipe
     rp = prog.func("interfaces.Resource._render_to_pipe")
@@ -663,8 +699,8 @@ def e(ctx):
         else:
             n_plain += 1
             ag.add("without assembly the resource handles blocks itself", bool(direct) and not feeds, direct[0][1] if direct else rp.node, construct="_render_to_pipe: plain rendering")
-    ctx.floor("paths of Resource._render_to_pipe with block-wise assembly", n_asm, 1)
-    ctx.floor("paths of Resource._render_to_pipe without block-wise assembly", n_plain, 1)
+    ag.floor("paths of Resource._render_to_pipe with block-wise assembly", n_asm, 1)
+    ag.floor("paths of Resource._render_to_pipe without block-wise assembly", n_plain, 1)
     ag.flush()
 
 
@@ -698,38 +734,6 @@ def _explicit_kwargs(sx, p, call, facts):
             return None
         out.append((kw, f))
     return out
-
-
-def _dstar_escapes(EA, sx, fi, paths):
-    """Engine work-around: EscapeAnalysis.shape_for gives up the callee's `"k" in kwargs` specialisation when a call
-    passes `**mapping`.  For a call whose mapping is a display with constant (conditional) keys, analyse the equivalent
-    explicit-keyword calls instead (one per key set) and exempt the original site."""
-    extra = set()
-    done = {}
-    for p in paths:
-        for ev, c_, r in sx.calls(p):
-            if not any(k.arg is None for k in c_.keywords) or any(isinstance(a, ast.Starred) for a in c_.args):
-                continue
-            variants = _explicit_kwargs(sx, p, r, ev.facts)
-            if variants is None:
-                done[id(c_)] = None
-                continue
-            if done.get(id(c_), ()) is None:
-                continue
-            for kw, _f in variants:
-                explicit = [k for k in c_.keywords if k.arg is not None]
-                names = tuple(sorted(set(kw) - {k.arg for k in explicit}))
-                if names in done.setdefault(id(c_), set()):
-                    continue
-                done[id(c_)].add(names)
-                synth = ast.Call(func=c_.func, args=list(c_.args), keywords=explicit + [ast.keyword(arg=n, value=kw[n]) for n in names])
-                ast.copy_location(synth, c_)
-                ast.fix_missing_locations(synth)
-                extra |= set(EA._call(fi, synth, None, ev.node))
-    for cid, v in done.items():
-        if v:
-            EA.dead_nodes.add(cid)
-    return extra
 
 
 @R.clause("C06.f", "Block2: one rendering per block-0 request, later blocks are slices of it (4.08 if unknown, 4.00 beyond the end)")
@@ -788,8 +792,11 @@ def f(ctx):
                 if sx.entails(ev.facts, HASB2):
                     ok_own = _is_field(a0, fields, B2, fields[0]) and _is_field(a1, fields, B2, fields[2])
                 elif sx.refutes(ev.facts, HASB2):
+                    # no preference expressed: block 0 with the largest block size the peer takes
                     n0 = _field_of(a0, fields)
+                    n1 = _field_of(a1, fields)
                     ok_own = n0[0] == "val" and isinstance(n0[1], ast.Constant) and n0[1].value == 0 and type(n0[1].value) is int
+                    ok_own = ok_own and n1[0] == "val" and same(n1[1], P("%s.remote.maximum_block_size_exp" % rq))
                 else:
                     ctx.need(False, "extract_or_insert: the slice is requested on a path that has not decided whether Block2 is present")
             ag.add("the slice is taken with the request's own Block2 number and size exponent", ok_own, c_, detail="%s: number %s, size exponent %s" % (_where(sx, ev.facts), txt(a0) if a0 is not None else None, txt(a1) if a1 is not None else None))
@@ -801,9 +808,25 @@ def f(ctx):
                 ag.add("a rendering that needs more than one block is stored for the later blocks", bool(kept), c_, construct="extract_or_insert: store", detail=_where(sx, ev.facts))
         for s in _stores(p, F):
             ag.add("the rendering is stored under the transfer key of this request", same(s.key, K), s.node, detail=txt(s.key))
-    ctx.floor("builder invocations", n_build, 1)
-    ctx.floor("cache lookups", n_look, 1)
-    ctx.floor("_extract_block sites", n_slice, 1)
+        # 4. the answer is one block of the rendering exactly when the rendering does not fit: longer than the
+        # transport's payload limit, or than the block size the request asks for
+        if p.end == "return":
+            slices = list(_calls(sx, p, attr="_extract_block"))
+            body = slices[0][2].func.value if slices else p.ret
+            rnode = slices[0][1] if slices else next((ev.node for ev in reversed(p.events) if ev.kind == "ret"), fi.node)
+            if body is not None:
+                if isinstance(body, ast.Await):
+                    pass
+                LEN = ast.Call(func=ast.Name(id="len", ctx=ast.Load()), args=[ast.Attribute(value=body, attr="payload", ctx=ast.Load())], keywords=[])
+                CHUNK = ast.BoolOp(op=ast.Or(), values=[
+                    ast.Compare(left=LEN, ops=[ast.Gt()], comparators=[P("%s.remote.maximum_payload_size" % rq)]),
+                    ast.BoolOp(op=ast.And(), values=[HASB2, ast.Compare(left=LEN, ops=[ast.Gt()], comparators=[P("%s.opt.block2.size" % rq)])]),
+                ])
+                for chunk, f_ in sx.decide(CHUNK, p.facts):
+                    ag.add("the rendering is served whole iff it fits the transport's payload limit and the requested block size, else as one block of it", bool(slices) == chunk, rnode, construct="extract_or_insert: chunking decision", detail="%s: %s" % (_where(sx, f_), "a block is cut" if slices else "served whole"))
+    ag.floor("builder invocations", n_build, 1)
+    ag.floor("cache lookups", n_look, 1)
+    ag.floor("_extract_block sites", n_slice, 1)
     ag.flush()
     # every lookup site has its miss answered 4.08
     look_nodes = {}
@@ -818,18 +841,15 @@ def f(ctx):
     num, szx, mb = params(xb)
     xs = SymExec(prog, xb, include_exc=False)
     xpaths = xs.paths(assume=[("%s == 7" % szx, False)])  # the BERT arm (SZX 7) belongs to C05
-    extra = _dstar_escapes(EA, xs, xb, xs.paths())
     es = set(EA.escapes(fi))
-    if extra and any(k[0] == xb.qn for k in EA.memo):
-        es |= {e_.with_via(xb.short).with_via(fi.short) for e_ in extra}
-        ctx.note("`**{...}` call in _extract_block analysed as its explicit-keyword equivalents (%d escape(s) of the callee)" % len(extra))
-    # named exemption L3': Message.__init__'s `payload is None` TypeError cannot be triggered by copy(payload=<bytes slice>)
+    ctx.extra["call_shape_flow_extract_or_insert"] = [list(x) for x in EA.flow_log]
+    # L3' (Message.__init__'s `payload is None` TypeError cannot be triggered by copy(payload=<bytes slice>)) is no longer
+    # a named exemption: ShapedEscapes follows the value -- _extract_block passes a slice (not None), copy() takes it out
+    # of **kwargs and hands it to the constructor, which stores it in self.payload and tests that -- and finds the raise
+    # dead for this call chain; with copy(payload=None) or a removed keyword it is live and reported.
     bad = []
     for e_ in es:
         if any(e_.cls == a or prog.is_subclass(e_.cls, a) for a in ALLOWED):
-            continue
-        if e_.cls == "TypeError" and e_.func == "message.Message.__init__" and "Payload must not be None" in e_.text:
-            ctx.note("L3' applied: %r (copy() passes a bytes slice or the existing payload)" % e_)
             continue
         bad.append(e_)
     for e_ in sorted(bad, key=repr):
@@ -906,7 +926,7 @@ def f(ctx):
                         for mv, _f3 in xs.decide(opt.elts[1], f2):
                             okm = okm and (mv == rem)
                     ag.add("the more-flag is set exactly when bytes remain after the slice (end < len(body))", okm, rnode, construct="_extract_block more", detail="%s: more = %s" % (_where(xs, f_), txt(opt.elts[1])))
-    ctx.floor("_extract_block: paths returning a block", n_ret, 1)
+    ag.floor("_extract_block: paths returning a block", n_ret, 1)
     ag.add("a block starting at or beyond the end of the body is answered 4.00", n_raise >= 1, xb.node, construct="_extract_block out-of-range guard", detail="no path raises")
     ag.flush()
 
@@ -943,6 +963,52 @@ def _as_filtered_dict(st, p, comp, imports):
     return None
 
 
+def _get_with_default(e, coll, key):
+    """`coll.get(key, D)` -> D (a Constant None when omitted), else None"""
+    if isinstance(e, ast.Call) and chain(e.func) == coll + ".get" and not e.keywords and 1 <= len(e.args) <= 2 and same(e.args[0], key):
+        return e.args[1] if len(e.args) == 2 else ast.Constant(value=None)
+    return None
+
+
+def _sentinel_value(prog, fi, p, d):
+    """the default of a lookup is an object that cannot be a stored value: bound once, at module level or in this
+    function, to a fresh `object()` / an instance of a class of the program"""
+    if not isinstance(d, ast.Name):
+        return False
+    v = None
+    try:
+        v = prog.module_const(fi.module.name, d.id)
+    except AnchorError:
+        v = None
+    if v is None:
+        ws = writes_to_name(fi.node, d.id)
+        if len(ws) == 1 and isinstance(ws[0], ast.Assign):
+            v = ws[0].value
+    if not isinstance(v, ast.Call) or v.args and chain(v.func) == "object":
+        return False
+    if chain(v.func) == "object":
+        return True
+    try:
+        return prog.resolve_in_module(fi.module, chain(v.func) or "?") in prog.classes
+    except Exception:
+        return False
+
+
+def _is_sentinel_miss(prog, fi, sx, p, t):
+    """a test event that established `coll.get(key, S) is S` for a sentinel S on this path"""
+    e = t.value
+    pol = t.outcome
+    while isinstance(e, ast.UnaryOp) and isinstance(e.op, ast.Not):
+        e, pol = e.operand, not pol
+    if isinstance(e, ast.Compare) and len(e.ops) == 1 and isinstance(e.ops[0], (ast.Is, ast.IsNot)):
+        if isinstance(e.ops[0], ast.IsNot):
+            pol = not pol
+        for a, b in ((e.left, e.comparators[0]), (e.comparators[0], e.left)):
+            if isinstance(a, ast.Call) and isinstance(a.func, ast.Attribute) and a.func.attr == "get" and len(a.args) == 2 and same(a.args[1], b) and _sentinel_value(prog, fi, p, b):
+                return bool(pol)
+    return False
+
+
 def _tick_filter(ctx, st, tk, p):
     """The expiry step on one path of TimeoutDict._tick.  Recognised spellings of "keep the entries whose key is in
     _recently_accessed": a dict comprehension / dict(generator) over the old items assigned to self._items, a fresh
@@ -955,77 +1021,118 @@ def _tick_filter(ctx, st, tk, p):
         return ast.Compare(left=kx, ops=[ast.In()], comparators=[P(RA)])
 
     ws = _stores(p, ITEMS, "store")
-    loops = [(ev, _iter_roles(st, ev.value, ev.target, ITEMS)) for ev in p.evs("for")]
-    loops = [(ev, r) for ev, r in loops if r is not None]
-    has_loop = any(_iter_roles(st, st.subst(n.iter, p.env, {}), n.target, ITEMS) is not None for n in walk_no_nested(tk.node) if isinstance(n, ast.For))
-    if not ws:
-        # in place: `for k in list(self._items): if k not in recent: del self._items[k]`
-        ctx.need(has_loop, "_tick: neither an assignment of self._items nor a loop over its keys")
-        dels = [ev for ev in p.evs("delitem") if chain(ev.target) == ITEMS]
-        pops = [ev for ev, c_, r in st.calls(p) if isinstance(r.func, ast.Attribute) and r.func.attr == "pop" and chain(r.func.value) == ITEMS]
-        ctx.need(not pops, "_tick: entries removed with pop() are outside the rule's vocabulary")
-        anchor = next((n for n in walk_no_nested(tk.node) if isinstance(n, ast.For)), tk.node)
-        ok, detail = True, None
-        last = 0
-        for ev, roles in loops:
-            mine = [x for x in dels if same(x.key, roles[0])]
-            last = max([p.events.index(ev)] + [p.events.index(x) for x in mine])
-            if [x for x in dels if x not in mine]:
-                ok, detail = False, "deletes %s" % txt([x for x in dels if x not in mine][0].key)
-            for x in mine:
+    fors = [n for n in walk_no_nested(tk.node) if isinstance(n, ast.For)]
+    if len(ws) > 1:
+        return False, "%d assignments of self._items" % len(ws), ws[-1].value, p.events.index(ws[-1]), ws[-1].node
+    # R: the dictionary that self._items is at the end -- self._items itself (changed in place), or a local object
+    # assigned to it.  `initial`: does R start out with the old entries (itself / a copy of it) or empty?
+    if ws:
+        V = ws[-1].value
+        widx = p.events.index(ws[-1])
+        anchor = ws[-1].node
+        comp = p.objs[V.id] if isinstance(V, ast.Name) and V.id in p.objs else V
+        flt = _as_filtered_dict(st, p, comp, tk.module.imports)
+        if flt == "nested":
+            return False, "nested comprehension", V, widx, anchor
+        ctx.need(flt != "filter", "_tick: a filter of the new value of self._items (%s) is outside the rule's vocabulary" % txt(V))
+        if flt is not None:
+            key_, value_, target_, iter_, conds_ = flt
+            roles = _iter_roles(st, iter_, target_, ITEMS)
+            if roles is None or not (same(key_, roles[0]) and same(value_, roles[1])):
+                return False, "element %s: %s for %s in %s" % (txt(key_), txt(value_), txt(target_), txt(iter_)), V, widx, anchor
+            cond = ast.BoolOp(op=ast.And(), values=list(conds_)) if len(conds_) > 1 else (conds_[0] if conds_ else ast.Constant(value=True))
+            # predicates given as nested functions are evaluated in place, with the locals in force at the assignment
+            st._defs_now = p.defs
+            st._env_now = ws[-1].env
+            for b_, f_ in st.decide(cond, ws[-1].facts):
+                if not (st.entails(f_, recent(roles[0])) if b_ else st.refutes(f_, recent(roles[0]))):
+                    return False, "an entry is %s %s" % ("kept" if b_ else "dropped", _where(st, f_)), V, widx, anchor
+            return True, None, V, widx, anchor
+        fresh_dict = (isinstance(comp, ast.Dict) and not comp.keys) or (isinstance(comp, ast.Call) and chain(comp.func) == "dict" and not comp.args and not comp.keywords)
+        a0 = comp.args[0] if isinstance(comp, ast.Call) and len(comp.args) == 1 and not comp.keywords else None
+        copy_of_old = (
+            (isinstance(comp, ast.Call) and chain(comp.func) == "dict" and a0 is not None and (chain(a0) == ITEMS or (isinstance(a0, ast.Call) and chain(a0.func) == ITEMS + ".items" and not a0.args)))
+            or (isinstance(comp, ast.Call) and chain(comp.func) == ITEMS + ".copy" and not comp.args and not comp.keywords)
+            or (isinstance(comp, ast.Dict) and len(comp.keys) == 1 and comp.keys[0] is None and chain(comp.values[0]) == ITEMS)
+        )
+        ctx.need(isinstance(V, ast.Name) and V.id in p.objs and (fresh_dict or copy_of_old), "_tick: the new value of self._items (%s) is outside the rule's vocabulary" % txt(V))
+        initial = copy_of_old
+        rname = V.id
+
+        def is_r(e):
+            return isinstance(e, ast.Name) and e.id == rname
+
+        truth = V
+    else:
+        ctx.need(fors, "_tick: neither an assignment of self._items nor a loop over its keys")
+        widx = None
+        anchor = fors[0]
+        initial = True
+        rname = None
+
+        def is_r(e):
+            return chain(e) == ITEMS
+
+        truth = P(ITEMS)
+    # the loops over the old entries (over self._items, or over R where R holds them), one iteration standing for the
+    # entry with an arbitrary key k: R contains k afterwards iff (it did before and k was not removed) or k was stored
+    loops = []
+    for ev in p.evs("for"):
+        roles = _iter_roles(st, ev.value, ev.target, ITEMS)
+        over_r = rname is None
+        if roles is None and rname is not None and initial:
+            roles = _iter_roles(st, ev.value, ev.target, rname)
+            over_r = roles is not None
+        if roles is not None:
+            loops.append((ev, roles, over_r))
+    if not fors:
+        return False, "no loop over the old items", truth, widx if widx is not None else 0, anchor
+    fills = [ev for ev in p.evs("setitem") if is_r(ev.target)]
+    dels = [(ev, ev.key) for ev in p.evs("delitem") if is_r(ev.target)]
+    for ev, c_, r in st.calls(p):
+        if isinstance(r.func, ast.Attribute) and is_r(r.func.value):
+            if r.func.attr == "pop" and 1 <= len(r.args) <= 2 and not r.keywords:
+                dels.append((ev, r.args[0]))
+            elif r.func.attr in ("popitem", "clear", "update", "setdefault", "__setitem__", "__delitem__"):
+                return False, "%s on the dictionary" % r.func.attr, truth, widx if widx is not None else 0, anchor
+    ok, detail = True, None
+    last = 0
+    if not loops and (dels or fills):
+        ok, detail = False, "entries changed outside a loop over the old items"
+    for ev, roles, over_r in loops:
+        li = p.events.index(ev)
+        mine_f = [x for x in fills if same(x.key, roles[0]) and p.events.index(x) > li]
+        mine_d = [x for x, k in dels if same(k, roles[0]) and p.events.index(x) > li]
+        other = [x for x in fills if x not in mine_f] + [x for x, k in dels if x not in mine_d]
+        last = max([last, li] + [p.events.index(x) for x in mine_f + mine_d])
+        if other:
+            ok, detail = False, "changes the entry %s" % txt(getattr(other[0], "key", None) or other[0].node)
+        if widx is not None and any(p.events.index(x) > widx for x in mine_f + mine_d):
+            ok, detail = False, "the dictionary is still changed after it has become self._items"
+        if mine_f and mine_d:
+            ok, detail = False, "an entry is stored and removed in the same iteration"
+        elif mine_f:
+            for x in mine_f:
+                if not (same(x.value, roles[1]) and st.entails(x.facts, recent(roles[0]))):
+                    ok, detail = False, "an entry is kept %s" % _where(st, x.facts)
+        elif mine_d:
+            if not initial:
+                ok, detail = False, "removes from a dictionary that starts empty"
+            for x in mine_d:
                 if not st.refutes(x.facts, recent(roles[0])):
                     ok, detail = False, "an entry is dropped %s" % _where(st, x.facts)
-            if not mine and not st.entails(p.facts, recent(roles[0])):
+        else:
+            # untouched: stays in R iff R had the old entries
+            if initial and not st.entails(p.facts, recent(roles[0])):
                 ok, detail = False, "an entry is kept %s" % _where(st, p.facts)
-            # deleting while iterating needs a copy of the keys
+            if not initial and not st.refutes(p.facts, recent(roles[0])):
+                ok, detail = False, "an entry is dropped %s" % _where(st, p.facts)
+        # changing the very dictionary that is being iterated needs a copy of its keys
+        if over_r and (mine_d or mine_f):
             raw = ev.value
             if not (isinstance(raw, ast.Call) and chain(raw.func) in ("list", "tuple", "sorted")):
                 ok, detail = False, "the dictionary is modified while it is iterated"
-        if not loops and dels:
-            ok, detail = False, "entries deleted outside the loop"
-        return ok, detail, P(ITEMS), last, anchor
-    anchor = ws[-1].node
-    if len(ws) != 1:
-        return False, "%d assignments of self._items" % len(ws), ws[-1].value, p.events.index(ws[-1]), anchor
-    V = ws[-1].value
-    widx = p.events.index(ws[-1])
-    comp = p.objs[V.id] if isinstance(V, ast.Name) and V.id in p.objs else V
-    flt = _as_filtered_dict(st, p, comp, tk.module.imports)
-    if flt == "nested":
-        return False, "nested comprehension", V, widx, anchor
-    ctx.need(flt != "filter", "_tick: a filter of the new value of self._items (%s) is outside the rule's vocabulary" % txt(V))
-    if flt is not None:
-        key_, value_, target_, iter_, conds_ = flt
-        roles = _iter_roles(st, iter_, target_, ITEMS)
-        if roles is None or not (same(key_, roles[0]) and same(value_, roles[1])):
-            return False, "element %s: %s for %s in %s" % (txt(key_), txt(value_), txt(target_), txt(iter_)), V, widx, anchor
-        cond = ast.BoolOp(op=ast.And(), values=list(conds_)) if len(conds_) > 1 else (conds_[0] if conds_ else ast.Constant(value=True))
-        # predicates given as nested functions are evaluated in place, with the locals in force at the assignment
-        st._defs_now = p.defs
-        st._env_now = ws[-1].env
-        for b_, f_ in st.decide(cond, ws[-1].facts):
-            if not (st.entails(f_, recent(roles[0])) if b_ else st.refutes(f_, recent(roles[0]))):
-                return False, "an entry is %s %s" % ("kept" if b_ else "dropped", _where(st, f_)), V, widx, anchor
-        return True, None, V, widx, anchor
-    fresh_dict = (isinstance(comp, ast.Dict) and not comp.keys) or (isinstance(comp, ast.Call) and chain(comp.func) == "dict" and not comp.args and not comp.keywords)
-    ctx.need(isinstance(V, ast.Name) and V.id in p.objs and fresh_dict, "_tick: the new value of self._items (%s) is outside the rule's vocabulary" % txt(V))
-    # a fresh dict filled in a loop over the old items
-    if not has_loop:
-        return False, "no loop over the old items", V, widx, anchor
-    fills = [ev for ev in p.evs("setitem") if same(ev.target, V)]
-    ok, detail = True, None
-    for ev, roles in loops:
-        mine = [x for x in fills if same(x.key, roles[0])]
-        if [x for x in fills if x not in mine]:
-            ok, detail = False, "stores %s" % txt([x for x in fills if x not in mine][0].key)
-        for x in mine:
-            if not (same(x.value, roles[1]) and st.entails(x.facts, recent(roles[0])) and p.events.index(x) < widx):
-                ok, detail = False, "an entry is kept %s" % _where(st, x.facts)
-        if not mine and not st.refutes(p.facts, recent(roles[0])):
-            ok, detail = False, "an entry is dropped %s" % _where(st, p.facts)
-    if not loops and fills:
-        ok, detail = False, "entries stored outside a loop over the old items"
-    return ok, detail, V, widx, anchor
+    return ok, detail, truth, (widx if widx is not None else last), anchor
 
 
 @R.clause("C06.g", "TimeoutDict: refreshed on get and set, expiry keeps exactly the recently used keys; lifetime is MAX_TRANSMIT_WAIT")
@@ -1045,6 +1152,31 @@ def g(ctx):
             site = site or (acc[0] if acc else None)
             ok = ok and bool(acc)
         ctx.ob("%s marks the key as recently used on every normal path" % name, ok and site is not None, fi, site if site is not None else fi.node, construct="TimeoutDict.%s refresh" % name)
+        if name != "__getitem__":
+            continue
+        # what the spool and the cache rely on: a lookup returns the stored value, and raises KeyError for an absent key
+        K_ = ast.Name(id=key, ctx=ast.Load())
+        READ = ast.Subscript(value=P("self._items"), slice=K_, ctx=ast.Load())
+        PRESENT = ast.Compare(left=K_, ops=[ast.In()], comparators=[P("self._items")])
+        okr, detail, node = True, None, fi.node
+        sx2 = SymExec(prog, fi, include_exc=False)
+        for p in sx2.paths():
+            last = next((ev.node for ev in reversed(p.events) if ev.kind in ("ret", "raise")), fi.node)
+            if p.end == "raise":
+                ev = p.raised()
+                cls_ = ShapedEscapes(prog)._exc_class(fi, ev.value if ev.value is not None else ev.node.exc) if ev is not None and (ev.value is not None or ev.node.exc is not None) else None
+                absent = sx2.refutes(p.facts, PRESENT) or any(_is_sentinel_miss(prog, fi, sx2, p, t) for t in p.evs("test"))
+                if cls_ != "KeyError" or not absent:
+                    okr, detail, node = False, "raises %s %s" % (cls_, _where(sx2, p.facts)), last
+                continue
+            r = p.ret
+            if r is not None and same(r, READ):
+                continue  # the plain subscript raises KeyError by itself
+            g = _get_with_default(r, "self._items", K_) if r is not None else None
+            if g is not None and _sentinel_value(prog, fi, p, g) and sx2.refutes(p.facts, ast.Compare(left=r, ops=[ast.Is()], comparators=[g])):
+                continue  # .get(key, <private sentinel>) on a path that has excluded the sentinel
+            okr, detail, node = False, "returns %s %s" % (txt(r) if r is not None else None, _where(sx2, p.facts)), last
+        ctx.ob("a lookup returns the stored value and raises KeyError for an absent key", okr, fi, node, detail=detail, construct="TimeoutDict.__getitem__ lookup")
     acc = prog.func(td + "_accessed")
     key = params(acc)[0]
     sa = SymExec(prog, acc, include_exc=False)
@@ -1102,7 +1234,7 @@ def g(ctx):
             else:
                 ag.add("_tick re-arms iff items remain (after filtering)", not so_calls, so_calls[0][1] if so_calls else anchor, construct="TimeoutDict._tick re-arm", detail=_where(st, f_))
                 ag.add("otherwise the timer is marked as not running", bool(idle), idle[0].node if idle else anchor, construct="TimeoutDict._tick idle", detail=_where(st, f_))
-    ctx.floor("normal paths of TimeoutDict._tick", n_paths, 2)
+    ag.floor("normal paths of TimeoutDict._tick", n_paths, 2)
     ag.flush()
     # lifetimes
     for short, field in ((BW + "Block1Spool.__init__", "_assemblies"), (BW + "Block2Cache.__init__", "_completes")):
@@ -1140,7 +1272,7 @@ R.seed("C06.c", F_B, "                OptionNumber.BLOCK1,\n", "", "Block1 part 
 R.seed("C06.c", F_M, "            if option.number in ignore_options or (", "            if option.number not in ignore_options or (", "ignore list inverted")
 R.seed("C06.d", F_M, "        if block1.start == len(self.payload):", "        if block1.start <= len(self.payload):", "overlap accepted")
 R.seed("C06.d", F_M, "            if len(next_block.payload) == block1.size:", "            if len(next_block.payload) <= block1.size:", "short non-final block accepted")
-R.seed("C06.d", F_M, "        else:\n            raise ValueError()\n", "", "a block out of place is silently dropped and the transfer goes on")
+R.seed("C06.d", F_M, "            raise ValueError()\n", "            pass\n", "a block out of place is silently dropped and the transfer goes on")
 R.seed("C06.d", F_M, "        if block1.more:\n            if len(next_block.payload) == block1.size:", "        if not block1.more:\n            if len(next_block.payload) == block1.size:", "size check on the final block only")
 R.seed("C06.e", F_B, "        if req.opt.block1.more:\n            raise ContinueException(req.opt.block1)", "        if False:\n            raise ContinueException(req.opt.block1)", "handler called on partial body")
 R.seed("C06.e", F_B, "        if req.opt.block1.block_number == 0:\n            # silently", "        if req.opt.block1.block_number <= 1:\n            # silently", "block 1 restarts the assembly")
@@ -1159,3 +1291,12 @@ R.seed("C06.g", F_T, "            k: v for (k, v) in self._items.items() if k in
 R.seed("C06.g", F_B, "        self._assemblies = TimeoutDict(numbers.TransportTuning().MAX_TRANSMIT_WAIT)", "        self._assemblies = TimeoutDict(numbers.TransportTuning().ACK_TIMEOUT)", "state lives 2 s")
 R.seed("C06.g", F_T, "        if self._items:\n            self._start_over()", "        if not self._items:\n            self._start_over()", "timer stops while items remain")
 R.seed("C06.g", F_T, "        if self._timeout is None:\n            self._start_over()", "        if self._timeout is not None:\n            self._start_over()", "every access restarts the period and forgets the other keys")
+
+# second pass: the generalised / added obligations bite
+R.seed("C06.g", F_T, "        result = self._items[key]\n", "        result = self._items.get(key)\n", "a lookup of an absent key returns None instead of raising KeyError: no 4.08 for an unknown transfer")
+R.seed("C06.f", F_B, "                0, 0, req.remote.maximum_block_size_exp\n", "                0, 0, req.remote.maximum_payload_size\n", "without Block2 the first block is cut with a byte count as size exponent")
+R.seed("C06.c", F_M, "                option.number.is_safetoforward() and option.number.is_nocachekey()\n", "                option.number.is_safetoforward()\n", "all safe-to-forward options dropped from the cache key: different requests share a transfer")
+R.seed("C06.f", F_B, "            or req.opt.block2 is not None\n", "            and req.opt.block2 is not None\n", "a large rendering for a request without Block2 is sent whole")
+R.seed("C06.f", F_M, "        new.mtype = Type(kwargs.pop(\"mtype\")) if \"mtype\" in kwargs else self.mtype\n", "        new.mtype = Type(kwargs.pop(\"mtype\", self.mtype))\n", "copy() converts the inherited mtype: Type(None) -> ValueError -> 5.00 for every sliced response")
+R.seed("C06.f", F_M, "        if \"uri\" in kwargs:\n            new.set_request_uri(kwargs.pop(\"uri\"))\n", "        if \"uri\" not in kwargs:\n            new.set_request_uri(self.get_request_uri())\n", "copy() re-parses the URI when none is given: URL errors -> 5.00")
+R.seed("C06.f", F_M, "        new.mid = kwargs.pop(\"mid\", self.mid)\n", "        new.mid = self.mid\n", "mid= stays among the left-over keywords and is set as an option: AttributeError -> 5.00")
